@@ -221,7 +221,7 @@ pub fn drive_c01(a: &Args) {
     // several managers alive at once, used alternately (and a wrapper thread running concurrently): managers are
     // independent - nothing may be shared between them
     {
-        let picks: Vec<usize> = (0..fams.len()).filter(|i| i % 37 == (a.seed as usize) % 37 && !fams[*i].t.has_quot() && fams[*i].t.cost() <= COST_LIMIT).collect();
+        let picks: Vec<usize> = (0..fams.len()).filter(|i| i % 19 == (a.seed as usize) % 19 && !fams[*i].t.has_quot() && fams[*i].t.cost() <= COST_LIMIT).collect();
         let bg_terms: Vec<T> = picks.iter().map(|&i| fams[i].t.smt_form()).collect();
         let bg = std::thread::spawn(move || {
             // concurrent use of the thread-local manager of another thread
@@ -233,6 +233,7 @@ pub fn drive_c01(a: &Args) {
             }
             n
         });
+        let mut inter = Out::create(&a.out, "c07_interleaved.ndjson");
         let (mut ma, mut mb) = (ReManager::new(), ReManager::new());
         for pair in picks.chunks(2) {
             if pair.len() < 2 {
@@ -275,10 +276,12 @@ pub fn drive_c01(a: &Args) {
                         m.insert("nullable".into(), json!(n));
                         m.insert("words".into(), json!(w));
                         m.insert("res".into(), json!(res));
-                        mem.emit(Value::Object(m));
+                        mem.emit(Value::Object(m.clone()));
+                        inter.emit(Value::Object(m));
                     }
                 }
                 Err(msg) => {
+                    inter.emit(panic_case(pair[0], fa, "C07:two_managers_interleaved", &msg));
                     mem.emit(panic_case(pair[0], fa, "C07:two_managers_interleaved", &msg));
                     ma = ReManager::new();
                     mb = ReManager::new();
@@ -286,6 +289,7 @@ pub fn drive_c01(a: &Args) {
             }
         }
         let _ = bg.join();
+        inter.finish();
     }
     // the SMT-LIB-named wrappers: thread-local manager.  One long-lived thread (dirty manager)
     // for even jobs, a fresh thread (fresh manager) per chunk of 25 for odd jobs.
